@@ -179,9 +179,9 @@ func checkC17(c *Ctx) {
 	// ---- UTF-16
 	c.ruleUTF16()
 	c.R.Floor("H1.guidtext", 1)
-	c.R.Floor("G6.pair", 3)
-	c.R.Floor("G7.wire", 8)
-	c.R.Floor("A-u.utf16", 4)
+	c.R.Floor("G6.pair", 2)
+	c.R.Floor("G7.wire", 3)
+	c.R.Floor("A-u.utf16", 3)
 }
 
 // guidCmp: CmpEFIGUID is a conjunction; go/ssa lowers a && b && c && d to a phi.
@@ -499,7 +499,7 @@ func checkC18(c *Ctx) {
 		c.hardDriveText(fn)
 	}
 	c.R.Floor("H2.bootname", 2)
-	c.R.Floor("G5.layout", 7)
+	c.R.Floor("G5.layout", 4)
 }
 
 func isStringType(t types.Type) bool {
